@@ -84,7 +84,7 @@ class Gen:
         return mk_num("".join(r.choice("0123456789") for _ in range(r.randint(19, 40))))
 
     def var(self, env):
-        name = self.rnd.choice(["X", "Y", "Zed", "_a", "True", "ATOM_NIL", "X1"])
+        name = self.rnd.choice(["X", "Y", "Zed", "_a", "True", "ATOM_NIL", "X1", "_G1", "_G2", "_G3", "_x1", "_x2", "X1_", "_X"])
         return {"k": "var", "name": cps(name)}, {"t": "v", "name": name}, name
 
     def anon(self):
